@@ -134,13 +134,14 @@ def stepWith (oracle : Case → Summary → Bool) (leakStrict : Bool := false) (
     let showR : Option (String × Nat) → String
       | none => "none"
       | some (i, h) => encStr i ++ ":" ++ toString h
-    let i : Option (Option (String × Nat)) :=
-      if impl == "none" then some none else
+    -- the harness also reports the count the resumed session goes on with: the one it presented
+    let i : Option (Option (String × Nat) × Bool) :=
+      if impl == "none" then some (none, true) else
       match impl.splitOn ":" with
-      | [a, b] => (do pure (some (← decStr a, ← b.toNat?)))
+      | [a, b, after] => (do pure (some (← decStr a, ← b.toNat?), after == b))
       | _ => none
     match i with
-    | some i => (d, ⟨showR m, decide (m = i), holdsResume c m, holdsResume c i, "-"⟩)
+    | some (i, cont) => (d, ⟨showR m ++ (match m with | some (_, h) => ":" ++ toString h | none => ""), decide (m = i) && cont, holdsResume c m, holdsResume c i && cont, "-"⟩)
     | none => (d, ⟨showR m, false, holdsResume c m, false, "-"⟩)
   | _ =>
     match parseIn fields with
